@@ -173,7 +173,7 @@ def work(spec):
         return dict(base, status="inconclusive", why="not modelled: %s" % ex)
     except e1.ModelError as ex:
         import re
-        m = re.search(r"NameError: (\w+)_(\w+)$", str(ex))
+        m = re.search(r"NameError: (\w+)_(\w+)(?: @|$)", str(ex))
         isects = re.findall(r"name:\s*(\w+)\s*\n\s*class:\s*[Ii]ntersector", spec.get("arch") or "")
         if m and m.group(1) in isects:
             try:
